@@ -226,7 +226,39 @@ def sec_features(repo, c):
         feats[mm.group(1)] = [x.strip().strip('"') for x in mm.group(2).split(',') if x.strip()]
     c['FEATURES'] = feats
 
-SECTIONS = [('ordered', sec_ordered), ('ordered_wire', sec_ordered_wire), ('rope', sec_rope), ('slots_iter', sec_slots_iter), ('unord_wire', sec_unord_wire), ('derive_ordered_entry', sec_derive_ordered_entry), ('features', sec_features)]
+# ---- bounded arithmetic: the models use unbounded nat/Z (slot indices: u8 with N <= 255 translated). Every place where the code narrows an
+# integer or uses wrapping / saturating / checked arithmetic is listed in tools/arith_sites.json (normalised text of the line); a site that
+# appears, disappears or changes means the unbounded model may no longer describe the code: broken tie of the section.
+ARITH_FILES = {'arith_ordered': 'src/collections/ordered_array_like.rs', 'arith_rope': 'src/collections/rope/mod.rs', 'arith_slots': 'src/collections/rope/slots.rs',
+               'arith_unord_array': 'src/collections/unordered_array_like.rs', 'arith_unord_map': 'src/collections/unordered_map_like.rs',
+               'arith_rec_map': 'src/collections/unordered_map_like_recursive.rs'}
+ARITH_RE = re.compile(r"\bas\s+(u8|u16|u32|u64|i8|i16|i32|i64|isize|usize)\b|\b(wrapping|saturating|checked|overflowing)_\w+|\b(u8|u16|u32|i8|i16|i32)::(MAX|MIN|try_from|from)\b|try_into\(\)")
+def arith_sites(repo, rel):
+    out = []
+    for line in read(repo, rel).splitlines():
+        code = line.split('//')[0]
+        if ARITH_RE.search(code):
+            out.append(' '.join(code.split()))
+    return sorted(out)
+def make_sec_arith(name, rel):
+    def sec(repo, c):
+        now = arith_sites(repo, rel)
+        c.setdefault('ARITH', {})[name] = now
+        pin_file = os.path.join(os.path.dirname(os.path.abspath(__file__)), 'arith_sites.json')
+        try:
+            pinned = json.load(open(pin_file)).get(name)
+        except OSError:
+            pinned = None
+        if pinned is None:
+            raise TranslateError(f"{rel}: no pinned list of bounded-arithmetic sites (tools/arith_sites.json)")
+        if pinned != now:
+            import collections
+            a, b = collections.Counter(pinned), collections.Counter(now)
+            added, gone = list((b - a).elements()), list((a - b).elements())
+            raise TranslateError(f"{rel}: bounded-arithmetic sites changed (the model computes with unbounded integers): new {added[:3]} removed {gone[:3]}")
+    return sec
+
+SECTIONS = [('ordered', sec_ordered), ('ordered_wire', sec_ordered_wire), ('rope', sec_rope), ('slots_iter', sec_slots_iter), ('unord_wire', sec_unord_wire), ('derive_ordered_entry', sec_derive_ordered_entry), ('features', sec_features)] + [(n, make_sec_arith(n, r)) for n, r in ARITH_FILES.items()]
 
 def translate(repo):
     """returns (constants, errors-by-section)"""
